@@ -233,6 +233,11 @@ class FiniteDifference(ApproximationScheme):
         if not self._wrt_meta:
             return
 
+        # A relative step is relative to the current value of the wrt variable, so the step
+        # computed during an earlier linearization cannot be reused.
+        if any(meta.get('step_calc') not in (None, 'abs') for meta in self._wrt_meta.values()):
+            self._reset()
+
         self._starting_outs = system._outputs.asarray(copy=True)
         self._starting_resids = system._residuals.asarray(copy=True)
         self._starting_ins = system._inputs.asarray(copy=True)
